@@ -61,7 +61,7 @@ Fixpoint judge_phases (x : state) (ps : list phase) : bool * bool :=
 
 (* ---------------------------------------------------------------- the reader *)
 Definition rrb_cfg (limit : Z) : cfg :=
-  mkCfg (g_neg repo_cfg) (g_limit repo_cfg) limit (g_close repo_cfg) (g_reg_topics repo_cfg) (g_reg_chans repo_cfg)
+  mkCfg (g_neg repo_cfg) (g_limit repo_cfg) limit (g_close repo_cfg) (g_reg_topics repo_cfg) (g_reg_chans repo_cfg) (g_skip_exiting repo_cfg)
         (g_unreg_topic repo_cfg) (g_unreg_chan repo_cfg) (g_precreate_first repo_cfg) (g_skip_eph repo_cfg).
 
 Definition judge_rrb (limit : Z) (buf : list N) (code : N) (body : list N) (unread : nat) : bool * bool :=
